@@ -1,5 +1,7 @@
 #[allow(unused_imports)] use vstd::arithmetic::{div_mod::*, power2::*, mul::*};
 #[allow(unused_imports)] use vstd::bits::*;
+#[allow(unused_imports)] use vstd::std_specs::ops::*;
+#[allow(unused_imports)] use vstd::std_specs::cmp::*;
 #[allow(unused_imports)] use vstd::std_specs::bits::*;
 
 verus! {
@@ -70,4 +72,22 @@ impl ZmodN {
         m.val() < self.nval() && cong(m.val() as int, (v * self.rr()) as int, self.nval() as int)
     }
 }
+} // verus!
+
+verus! {
+/// gcd(n, value of a residue): the quantity `gcd_factors` works with
+pub open spec fn gval(n: Uint, v: MInt) -> nat { gcd_spec(uv(n), limbs(v.0@)) }
+
+/// the gcds with n increase along the sequence (for i <= j, gcd(n, vals[i]) divides gcd(n, vals[j])): the documented
+/// precondition of `gcd_factors`
+pub open spec fn gcd_chain(n: Uint, vals: Seq<MInt>) -> bool {
+    forall|i: int, j: int| 0 <= i <= j < vals.len() ==> dvd(#[trigger] gval(n, vals[i]), #[trigger] gval(n, vals[j]))
+}
+
+/// every element is at least 2
+pub open spec fn all_gt1(s: Seq<Uint>) -> bool { forall|i: int| 0 <= i < s.len() ==> uv(#[trigger] s[i]) > 1 }
+
+/// assumed until arith_gcd is under contract (C09): big_gcd is the gcd
+pub assume_specification<const N: usize> [crate::arith_gcd::big_gcd] (n: &BUint<N>, p: &BUint<N>) -> (r: BUint<N>)
+    ensures uv(r) == gcd_spec(uv(*n), uv(*p));
 } // verus!
